@@ -307,9 +307,20 @@ where
     hook::begin_ticks(20_000_000);
     let o = exec::<I, P, _>(p, mk, mode, state_seed(inp));
     let (cbs, _, fired) = hook::end_op();
-    hook::end_ticks();
+    let t = hook::end_ticks();
+    MAX_TICKS.with(|m| m.set(m.get().max(t)));
     (o, cbs, fired)
 }
+
+thread_local! {
+    /// the largest number of inspector ticks (tokens fetched, checkpoints, rewinds) of one operation
+    /// since the last reset: how heavy the references of a case were
+    static MAX_TICKS: std::cell::Cell<u64> = const { std::cell::Cell::new(0) };
+}
+/// Cases with a long input in their pool are only run under the scheduler if no reference operation
+/// needed more than this many ticks (every tick is a scheduling point; a legal super-linear grammar
+/// on a 700-token input would otherwise take minutes per execution).
+const LONG_TICK_CAP: u64 = 8_000;
 
 struct ZooC<const Z: usize>;
 type ZArc<'s> = Arc<dyn Parser<'s, &'s str, Val, ExS<'s>> + Send + Sync + 's>;
@@ -678,13 +689,26 @@ pub fn gen_case(seed: u64, idx: u64) -> (ThrCase, Rng) {
             5 => SKind::Io,
             _ => SKind::Slice,
         };
+        // source-backed inputs: one case in eight also has a LONG input in its pool (more than one
+        // 512-token batch of a stream), so that clients are inside refills of very different sizes at
+        // the same time. Only kept if the grammar turns out to be cheap on it (run_case: LONG_TICK_CAP),
+        // with three clients and at most two operations each: every token is a scheduling point.
+        let mut n = n;
+        if pick >= 3 && rng.chance(1, 8) {
+            let len = rng.range(520, 700) as usize;
+            let base: Vec<u8> = if pool[0].is_empty() { vec![0, 1] } else { pool[0].clone() };
+            let long: Vec<u8> = base.iter().cycle().take(len).copied().collect();
+            pool.push(long);
+            n += 1;
+        }
         (Subject::SyncDyn { grammar: g, kind }, pool, vec![], n)
     };
-    let k = *rng.pick(&[2usize, 2, 3, 3, 4, 8]);
+    let has_long = pool_syms.iter().any(|p| p.len() >= 512);
+    let k = if has_long { 3 } else { *rng.pick(&[2usize, 2, 3, 3, 4, 8]) };
     let mut clients = Vec::new();
     let fav = rng.usize(npool);
     for _ in 0..k {
-        let nops = rng.range(1, if k == 8 { 2 } else { 4 }) as usize;
+        let nops = rng.range(1, if k == 8 || has_long { 2 } else { 4 }) as usize;
         let mut v = Vec::new();
         for _ in 0..nops {
             let inp = if rng.chance(1, 3) { fav } else { rng.usize(npool) };
@@ -745,10 +769,18 @@ impl Engine for ThrSim {
         let (mut case, mut rng) = gen_case(seed, idx);
         let built = build_case(&case);
         // un-aborted references first (they also give callback counts for placing aborts)
+        MAX_TICKS.with(|m| m.set(0));
         let refs0 = references(&built.fresh_op, &case.clients);
         if refs0.values().any(|(o, _)| is_heavy(o)) {
             acc.inc("cases.discarded_reference_too_heavy");
             return 0;
+        }
+        if case.pool_syms.iter().any(|p| p.len() >= 512) {
+            if MAX_TICKS.with(|m| m.get()) > LONG_TICK_CAP {
+                acc.inc("cases.discarded_long_input_with_expensive_grammar");
+                return 0;
+            }
+            acc.inc("cases.with_an_input_longer_than_one_stream_batch");
         }
         // fault: abort some operations in the middle (other clients keep parsing through it)
         if rng.chance(1, 3) {
